@@ -23,6 +23,7 @@ RULE += ' Observations are recorded where they land (AssetPriceBuffers.append); 
 RULE += ' Direct streams: half-way the signal is deep-copied and the copy fed six other prices - copy and original are both checked against their own streams. Sessions: a quarter of the dynamic universes are a user-defined Universe subclass (not derived from DynamicUniverse).'
 RULE += ' 12% of the direct streams are pegged instruments (closes within 4 ppm of 1.0).'
 RULE += " Signals may be created for an inception date 20 days before the session's start (a member joined in between); a third of the static-universe sessions are the SECOND session on a shared signals collection and alpha model (windows continue from the first session's feeds)."
+RULE += " Round 11: the momentum model screens every ticker of the listing (also those without any observation yet: KeyError, skipped) before weighting the members; a fifth of the static-universe signal sessions declare their signals for a date six days after the session's start."
 ASSUMPTIONS = ['momentum/SMA 1e-9 relative; volatility 1e-9 relative (+1e-12 absolute)',
                'a session that raises the documented NaN-price ValueError is checked up to that instant']
 ALPHAS = ('topn_mom', 'sma_trend', 'inv_vol', 'mom_sign')
